@@ -27,6 +27,21 @@ def main():
         ck = rt.Check(a.prop.upper(), a.tier)
         ck.no_lean = a.no_lean
         if a.replay:
+            import json
+            try:
+                fr = json.load(open(a.replay)).get('failure', {}).get('replay', {})
+            except Exception:
+                fr = {}
+            if isinstance(fr, dict) and fr.get('oracle') == 'process-state':
+                # generic history replay: the constructor / refused-call fuzz runs again (rt.setup_torch -> history.prehistory)
+                from . import history
+                rt.setup_torch()
+                hits = history.STATE.get('process_state_changed', [])
+                for h in hits[:5]:
+                    print('REPLAY-FAILS: process-wide setting changed by %s: %s' % (h['by'], h['changed']))
+                if not hits:
+                    print('REPLAY-PASSES')
+                return 1 if hits else 0
             return mod.replay(ck, a.replay)
         mod.run(ck)
         return ck.finish()
